@@ -403,10 +403,12 @@ class Server(base_server.BaseServer):
             eio_sid = self.manager.pre_disconnect(sid, namespace=namespace)
             self._send_packet(eio_sid, self.packet_class(
                 packet.DISCONNECT, namespace=namespace))
-            self._trigger_event('disconnect', namespace, sid,
-                                self.reason.SERVER_DISCONNECT)
-            self.manager.disconnect(sid, namespace=namespace,
-                                    ignore_queue=True)
+            try:
+                self._trigger_event('disconnect', namespace, sid,
+                                    self.reason.SERVER_DISCONNECT)
+            finally:
+                self.manager.disconnect(sid, namespace=namespace,
+                                        ignore_queue=True)
 
     def shutdown(self):
         """Stop Socket.IO background tasks.
@@ -565,9 +567,12 @@ class Server(base_server.BaseServer):
         if not self.manager.is_connected(sid, namespace):  # pragma: no cover
             return
         self.manager.pre_disconnect(sid, namespace=namespace)
-        self._trigger_event('disconnect', namespace, sid,
-                            reason or self.reason.CLIENT_DISCONNECT)
-        self.manager.disconnect(sid, namespace, ignore_queue=True)
+        try:
+            self._trigger_event(
+                'disconnect', namespace, sid,
+                reason or self.reason.CLIENT_DISCONNECT)
+        finally:
+            self.manager.disconnect(sid, namespace, ignore_queue=True)
 
     def _handle_event(self, eio_sid, namespace, id, data):
         """Handle an incoming client event."""
@@ -668,7 +673,10 @@ class Server(base_server.BaseServer):
     def _handle_eio_disconnect(self, eio_sid, reason):
         """Handle Engine.IO disconnect event."""
         for n in list(self.manager.get_namespaces()).copy():
-            self._handle_disconnect(eio_sid, n, reason)
+            try:
+                self._handle_disconnect(eio_sid, n, reason)
+            except Exception:
+                self.logger.exception('disconnect handler error')
         if eio_sid in self.environ:
             del self.environ[eio_sid]
         self._binary_packet.pop(eio_sid, None)
